@@ -5,11 +5,18 @@ returns, spurious weak-CAS failures, arbitrary/stale values observed by relaxed 
 
 Model: `Model/RwLock.lean`; inductive invariant: `Proofs/RwInv.lean`, `Proofs/RwStep.lean` (one lemma per
 program counter, `step_inv`).  Ties on every run of `bin/check C02`:
- * T: `Gen/SyncSites.lean` regenerated from rwlock.rs; `gen_shape_ok` / `gen_cfg_good` re-check by `decide`
-   the atomic call sites (method, atomic, operands), the bit constants and the orderings the proofs need;
  * C: the real rwlock.rs runs under the deterministic scheduler shim and every trace must be accepted by
-   `step` (driver `drv_c02`), with exclusion / try / deadlock / lost-update / livelock oracles on the
-   implementation.
+   `step` (driver `drv_c02`, which replays each RMW with the ordering the running code actually passed), with
+   exclusion / try / deadlock / lost-update / livelock oracles on the implementation;
+ * T (static): `Gen/SyncSites.lean` regenerated from rwlock.rs, every RMW of `state` with a *role* derived from
+   what it does to the word (`acquire` = may raise the count field / set WRITE_LOCKED, `release` = `fetch_sub`,
+   `keep` = provably leaves the count alone or zero).  Position-independent obligations: every acquiring RMW is
+   Acquire or stronger, every releasing RMW Release or stronger, no plain store to `state`, the bit constants have
+   the model's values, wait and wake use the same futex key kind.  The per-function site list is not pinned (C
+   pins the operation sequence);
+ * T (observed): `Gen/RwObs.lean` regenerated from the traces (orderings of the RMWs that returned a guard /
+   began a guard's drop, spin budget, futex operation words of the real rusl::futex): must be good in any case,
+   and is what the configuration rests on when the static table was not understood.
 
 Wake-up: the reader-queue half is proved for every execution of the model (`rw_readers_no_lost_wakeup_partial`,
 invariant `RQ2` in `Proofs/RwWake.lean`).  The writer-queue half is proved (`rw_writers_no_lost_wakeup_sc_partial`,
@@ -24,12 +31,13 @@ import TinyVerif.Proofs.RwStep
 import TinyVerif.Proofs.RwWake
 import TinyVerif.Proofs.RwWakeW
 import TinyVerif.Gen.SyncSites
+import TinyVerif.Gen.RwObs
 set_option linter.unusedSimpArgs false
 set_option linter.unusedVariables false
 namespace TinyVerif.RwLock
 open TinyVerif.Gen.Sync
 
-/-! ## tie T -/
+/-! ## tie T: position-independent obligations on the regenerated site table and on the observation -/
 
 def isAcq : Ord → Bool
   | .acquire | .acqrel | .seqcst => true
@@ -38,51 +46,52 @@ def isRel : Ord → Bool
   | .release | .acqrel | .seqcst => true
   | _ => false
 
-def expectedRwShape : List (String × String × String × List String) :=
-  [("try_read", "fetch_update", "state", []),
-   ("read", "load", "state", []),
-   ("read", "compare_exchange_weak", "state", ["state", "state+READ_LOCKED"]),
-   ("read_unlock", "fetch_sub", "state", ["READ_LOCKED"]),
-   ("read_contended", "compare_exchange_weak", "state", ["state", "state+READ_LOCKED"]),
-   ("read_contended", "compare_exchange", "state", ["state", "state|READERS_WAITING"]),
-   ("read_contended", "futex_wait_fast", "state", ["state|READERS_WAITING"]),
-   ("try_write", "fetch_update", "state", []),
-   ("write", "compare_exchange_weak", "state", ["0", "WRITE_LOCKED"]),
-   ("write_unlock", "fetch_sub", "state", ["WRITE_LOCKED"]),
-   ("write_contended", "compare_exchange_weak", "state", ["state", "state|WRITE_LOCKED|other_writers_waiting"]),
-   ("write_contended", "compare_exchange", "state", ["state", "state|WRITERS_WAITING"]),
-   ("write_contended", "load", "writer_notify", []),
-   ("write_contended", "load", "state", []),
-   ("write_contended", "futex_wait_fast", "writer_notify", ["seq"]),
-   ("wake_writer_or_readers", "compare_exchange", "state", ["state", "0"]),
-   ("wake_writer_or_readers", "compare_exchange", "state", ["state", "READERS_WAITING"]),
-   ("wake_writer_or_readers", "compare_exchange", "state", ["state", "0"]),
-   ("wake_writer_or_readers", "futex_wake", "state", ["i32::MAX"]),
-   ("wake_writer", "fetch_add", "writer_notify", ["1"]),
-   ("wake_writer", "futex_wake", "writer_notify", ["1"]),
-   ("spin_until", "load", "state", [])]
+/-- the sites of rwlock.rs that operate on the `state` word -/
+def stateSites : List Site := rwlockSites.filter (fun s => s.loc == "state" && s.role != "wait" && s.role != "wake")
+def needsAcq (s : Site) : Bool := s.role == "acquire" || s.role == "both"
+def needsRel (s : Site) : Bool := s.role == "release" || s.role == "both"
+def succOrd (s : Site) : Ord := s.ords.getD 0 .unknown
 
-def shapeOf (l : List Site) : List (String × String × String × List String) :=
-  l.map (fun s => (s.fn, s.op, s.loc, s.vals))
+/-- the static table was understood: every atomic operation has literal (or aliased) orderings -/
+def staticUnderstood : Bool :=
+  rwlockSites.all (fun s => s.role == "wait" || s.role == "wake" || (!s.ords.isEmpty && s.ords.all (· != .unknown)))
+/-- every RMW of `state` that may create a guard is Acquire or stronger (and there is one) -/
+def staticAcqOk : Bool := stateSites.any needsAcq && stateSites.all (fun s => !needsAcq s || isAcq (succOrd s))
+/-- every RMW of `state` that gives a guard up is Release or stronger (and there is one) -/
+def staticRelOk : Bool := stateSites.any needsRel && stateSites.all (fun s => !needsRel s || isRel (succOrd s))
+/-- both atomics are only ever written by RMWs -/
+def noStore : Bool := rwlockSites.all (fun s => s.op != "store")
 
-def genShapeOk : Bool :=
-  shapeOf rwlockSites == expectedRwShape &&
-  c_READ_LOCKED == 1 && c_MASK == MASK && c_WRITE_LOCKED == WRITE_LOCKED && c_MAX_READERS == MAX_READERS &&
-  c_READERS_WAITING == RW && c_WRITERS_WAITING == WW && futexWaitPrivate == futexWakePrivate &&
-  decide (0 ≤ rwlock_spin)
+def obsAcqOk : Bool :=
+  Gen.RwObs.observed.any (fun r => r.2.1 == "acquire") &&
+  Gen.RwObs.observed.all (fun r => r.2.1 != "acquire" || isAcq r.2.2)
+def obsRelOk : Bool :=
+  Gen.RwObs.observed.any (fun r => r.2.1 == "release") &&
+  Gen.RwObs.observed.all (fun r => r.2.1 != "release" || isRel r.2.2)
+
+def constVal (n : String) : Option Nat := (rwConsts.find? (·.1 == n)).map (·.2)
+/-- the bit layout of the model is the bit layout of rwlock.rs: the model's values all occur among the file's
+constants, and each constant that still goes by its name has the model's value -/
+def constsOk : Bool :=
+  [1, MASK, MAX_READERS, RW, WW].all (fun v => rwConsts.any (·.2 == v)) &&
+  (constVal "READ_LOCKED").all (· == 1) && (constVal "MASK").all (· == MASK) &&
+  (constVal "WRITE_LOCKED").all (· == WRITE_LOCKED) && (constVal "MAX_READERS").all (· == MAX_READERS) &&
+  (constVal "READERS_WAITING").all (· == RW) && (constVal "WRITERS_WAITING").all (· == WW)
+
+def futexKeyOk : Bool :=
+  Gen.RwObs.futexWaitPrivate == Gen.RwObs.futexWakePrivate &&
+  (!futexKeyUnderstood || (futexWaitPrivate == Gen.RwObs.futexWaitPrivate && futexWakePrivate == Gen.RwObs.futexWakePrivate))
+
+def genShapeOk : Bool := noStore && constsOk && futexKeyOk
 
 theorem gen_shape_ok : genShapeOk = true := by decide
 
-def ordAt (k j : Nat) : Ord := ((rwlockSites.getD k ⟨"", "", "", [], []⟩).ords.getD j .relaxed)
-
-/-- the model configuration taken from the regenerated table: every reader-acquiring RMW, every
-writer-acquiring RMW, both unlocking RMWs -/
+/-- the model configuration: a bit is set iff *all* RMWs of that kind are strong enough, in the observation and
+(when understood) in the source -/
 def genCfg : Cfg :=
-  { readAcq := isAcq (ordAt 0 0) && isAcq (ordAt 2 0) && isAcq (ordAt 4 0)
-    writeAcq := isAcq (ordAt 7 0) && isAcq (ordAt 8 0) && isAcq (ordAt 10 0)
-    readRel := isRel (ordAt 3 0)
-    writeRel := isRel (ordAt 9 0)
-    spinMax := rwlock_spin.toNat }
+  let a := obsAcqOk && (!staticUnderstood || staticAcqOk)
+  let r := obsRelOk && (!staticUnderstood || staticRelOk)
+  { readAcq := a, writeAcq := a, readRel := r, writeRel := r, spinMax := Gen.RwObs.spinBudget }
 
 theorem gen_cfg_good : genCfg.Good := by decide
 
